@@ -164,6 +164,17 @@ CHECKS['C02'] = dict(
          'document-level sibling comments/PIs, trees beyond the enumerated shapes.',
     technique='SMT-based symbolic execution (CrossHair/z3) of build_node_tree and node operators with symbolic counts/strings/labels',
     design='DESIGN.md §4 C02')
+CHECKS['C14'] = dict(
+    text='On a mixed-content sibling arrangement (3 elements, 2 text nodes, 2 comments, 2 processing instructions, one grandchild) with '
+         'element tags and PI targets as solver variables (alphabet {a,b} quick, {a,b,c} thorough; the solver case-splits the labels) '
+         'and the root kind enumerated (document, element, fragment): node.path strings of distinct nodes are distinct, every step '
+         'number equals 1 + the preceding siblings of the same expanded name / kind / PI target, fn:path(.) through the evaluator '
+         'gives the same strings (relative to root() for element roots), and etree_iter_paths agrees with node.path.',
+    note='Trusted: CrossHair str model, pure-Python ElementTree. The step numbering is the one XPath positional predicates apply (C01 '
+         'decides child::E[$n]). Out: re-evaluating the returned string under the solver (parser on symbolic text), attribute and '
+         'namespace node paths, namespaced names.',
+    technique='SMT-based symbolic execution (CrossHair/z3) of node.path / fn:path on enumerated arrangements with symbolic names',
+    design='DESIGN.md §4 C14')
 NOT_APPLICABLE = {
     'C04': 'Quantifies over program syntax and hash seeds: no value domain to make symbolic; symbolic source text does not get through '
            'the tokenizer regex under CrossHair (600 CPU-s, len<=2, no verdict); a table-level z3 check would verify a model of the '
